@@ -1250,3 +1250,11 @@ fault("c05-protocol-asks-the-real-file-system", "C05", "R05o",
       (PBASE, "    def gethandler(self) -> BaseHandler:\n", "    def selectorexists(self):\n        import os.path\n\n        return os.path.exists(self.config.get(\"pygopherd\", \"root\") + self.selector)\n\n    def gethandler(self) -> BaseHandler:\n"))
 fault("c17-nocall-applies-to-intermediate-elements", "C17", "R17p",
       (TALES, "\t\t\t\telif (hasattr (val, \"__call__\")):temp = val()\n\t\t\t\telse: temp = val\n", "\t\t\t\telif (canCall and hasattr (val, \"__call__\")):temp = val()\n\t\t\t\telse: temp = val\n"))
+# ======================================================================= round o (R11a generator reader, R07u stat of a cut selector, R19k root memoised before chroot)
+_C11_GEN_READER = "    def savecache(self) -> None:\n", "    def readcache(self):\n        with self.vfs.open(self.cachename, \"rb\") as fp:\n            for entry in pickle.load(fp):\n                yield entry\n\n    def savecache(self) -> None:\n"
+fault("c11-load-in-a-generator-behind-the-guard", "C11", "R11a",
+      (DIR, "                with self.vfs.open(self.cachename, \"rb\") as fp:\n                    self.fileentries = pickle.load(fp)\n", "                self.fileentries = self.readcache()\n"),
+      (DIR,) + _C11_GEN_READER)
+twin("c11-twin-generator-materialised-under-the-guard", "C11",
+     (DIR, "                with self.vfs.open(self.cachename, \"rb\") as fp:\n                    self.fileentries = pickle.load(fp)\n", "                self.fileentries = list(self.readcache())\n"),
+     (DIR,) + _C11_GEN_READER)
